@@ -134,3 +134,10 @@ class_invariant(A.Array, target_fundamental='<array>')
 class_invariant(A.List, target_fundamental='<list>')
 class_invariant(A.Map, target_fundamental='<map>')
 class_invariant(A.Varargs, target_fundamental='<varargs>')
+
+import io as _io
+UNIVERSE.register(_io.StringIO)
+add_spec_namespace(_io)
+schema(_io.StringIO, buf='str')
+schema(xmlwriter.XMLWriter, _data='StringIO', _tag_stack='list[str]', _indent='int', _indent_unit='int',
+       _indent_char='str', _newline_char='str')
